@@ -132,8 +132,8 @@ class C13(PropCheck):
                     ws = ws if ws is not None else [1.0] * len(xs)
                     if len(ws) >= 2:
                         i, j = r.sample(range(len(ws)), 2)
-                        ws[i] += 2.0
-                        ws[j] -= 2.0 + ws[j]      # becomes -2, the sum is unchanged
+                        ws[i] += 2.0 + ws[j]      # the sum stays the same non-zero power of two (a zero sum with
+                        ws[j] = -2.0              # non-zero entries gives +-inf weights, outside the model)
                     else:
                         ws = [-1.0]
                 self.bump('quant malformed=' + m)
@@ -153,6 +153,14 @@ class C13(PropCheck):
                 ws[r.randrange(n)] = 1.0
             alphas = [0.025, 0.975] + [r.choice([0.0, 1.0, 0.5, r.random(), r.random(), round(r.random(), 2)])
                                       for _ in range(r.randint(1, 3))]
+            if ws is not None and n >= 2 and r.random() < 0.2:
+                # rounded cumulative weights may stay below alpha = 1: the forced last entry then selects the
+                # largest value even when its weight is zero
+                ws[max(range(n), key=lambda i: xs[i])] = 0.0
+                if sum(ws) <= 0:
+                    ws[min(range(n), key=lambda i: xs[i])] = 0.7
+                alphas.append(1.0)
+                self.bump('quant float zero-weight maximum, alpha=1')
             scale = r.choice([r.uniform(0.1, 10), 1e-6, 3.0, 1e5])
             self.bump('quant float w=' + wstyle)
         self.bump('quant exact' if exact else 'quant float')
@@ -182,6 +190,11 @@ class C13(PropCheck):
             ws[r.randrange(n)] = float(r.randint(1, 1000))
         if ws is not None and sum(ws) <= 0:
             ws[r.randrange(n)] = 1.0
+        if ws is not None and sum(1 for v in ws if v > 0) < 2:
+            # one effective observation: the variance is 0/0; in binary64 (w*w)/w need not equal w, so the code
+            # returns -0.0 or garbage instead of nan unless the weight is a small integer -- keep it an integer
+            ws = [float(math.ceil(v * 8)) for v in ws]
+            self.bump('stat single effective observation (integer weight)')
         m = None
         if malformed:
             m = r.choice(['neg_w', 'zero_w', 'short_w', 'empty'])
@@ -274,7 +287,7 @@ class C13(PropCheck):
                     size=r.choice([1, 3, 5]), seed=r.randrange(2 ** 31))
 
     def generate(self):
-        f = 1 if self.tier == 'quick' else 12
+        f = 1 if self.tier == 'quick' else 20
         r = self.rng
         for _ in range(260 * f):
             yield self.gen_quant()
